@@ -1039,6 +1039,8 @@ mod pipeline {
             assert!(self.cmds.len() >= 2);
 
             let (err_read, err_write) = crate::popen::make_pipe()?;
+            // our end of the pipe must not be inherited by the commands
+            crate::popen::set_inheritable(&err_read, false)?;
             self = self.stderr_to(err_write);
 
             let stdin_data = self.stdin_data.take();
